@@ -271,6 +271,7 @@ fn cmd_run(args: &BTreeMap<String, String>) -> i32 {
             println!("node cfg 1: {:?}", c.nodes.values().next().unwrap());
             let mut w = World::new(c.clone());
             w.verbose = args.contains_key("sub");
+            w.focus = focus_of(args);
             let mut last_line = String::new();
             for (i, a) in t.iter().enumerate() {
                 let res = w.apply(a);
